@@ -31,6 +31,15 @@ CHECKS["C01"] = dict(category="exploration",
       note="Trusted: the reference evaluator (vlib/rules.py, ~80 lines) and the C04 distance model. minimum() counts per-gene distinct "
            "profiles summed over genes in range (module docstring reading).",
       design="3/C01")
+CHECKS["C02"] = dict(category="exploration",
+      technique="Hypothesis grammar-based rule-file generator (aliases as arbitrary token slices, comments, whitespace, multi-file) differential against an independent reference parser by exhaustive truth tables; per-class ill-formed files; shipped rule files on sampled worlds",
+      text="Generated rule files are parsed by the real parser and by an independent tokenizer/recursive-descent parser; fields must be "
+           "equal and condition/extender meaning is compared by complete truth tables over the rule's profiles on two in-range genes "
+           "(sampled above 4 profiles); regenerate->reparse, Ruleset.from_files scaling, 43 ill-formed classes (must raise), and the "
+           "shipped strict/relaxed/loose files (all rules, sampled worlds). Sampled search; truth tables exhaustive per rule.",
+      note="Trusted: reference parser/evaluator in vlib/rules.py. Rejection accepts any exception. One open known finding "
+           "(unknown profile in EXTENDERS accepted; pinned by the repository's test_extenders).",
+      design="3/C02")
 NOT_YET = {}
 
 def main():
